@@ -47,8 +47,13 @@ CRATE = "ext-crate"
 PATH = "ext_crate::m::Target"
 
 
-def make_cell(cfg, policy, req, rename, params, use, malformed):
-    xrt = {"crate": CRATE, "version": req, "path": PATH}
+PATHS = {None: PATH,
+         # the crate identifier occurs again further down the path (whole segment, inside a segment, in the type name)
+         "repeat": "ext_crate::ext_crate::my_ext_crate_util::Target_ext_crate"}
+
+
+def make_cell(cfg, policy, req, rename, params, use, malformed, pathkind=None):
+    xrt = {"crate": CRATE, "version": req, "path": PATHS[pathkind]}
     if PARAMS[params]:
         xrt["parameters"] = PARAMS[params]
     if malformed == "bad_req":
@@ -75,7 +80,8 @@ def make_cell(cfg, policy, req, rename, params, use, malformed):
         fs, req = SITES[use](ref)
         user = {"type": "object", "properties": {"f": fs}, "required": ["f"] if req else []}
     else:
-        dname = "Target" if use == "def_eq" else "Other"
+        dname = xrt["path"].split("::")[-1] if use == "def_eq" and isinstance(xrt.get("path"), str) else \
+            ("Target" if use == "def_eq" else "Other")
         defs[dname] = target
         user = {"type": "object", "properties": {"f": {"$ref": "#/definitions/" + dname}}, "required": ["f"]}
     defs["User"] = user
@@ -163,6 +169,13 @@ def cells():
                 for params in ("p0", "p1r", "p2ri"):
                     out.append(dict(cfg=cfg, policy=policy, req=req, m=m, rename=rename, params=params,
                                     use=use, malformed=None))
+    # paths in which the crate identifier occurs more than once (only the FIRST segment is the crate)
+    for cfg, policy, req, m in (("*", "Generate", "1.2.3", None), ("1.4.0", "Deny", "^1.2", True), ("absent", "Allow", "1.2.3", None)):
+        for rename in (RENAMES if cfg != "absent" else ["none"]):
+            for params in ("p0", "p1r"):
+                for use in ("def_eq", "def_diff", "inline"):
+                    out.append(dict(cfg=cfg, policy=policy, req=req, m=m, rename=rename, params=params,
+                                    use=use, malformed=None, pathkind="repeat"))
     # malformed extensions in configurations that would otherwise substitute
     for mal in ("bad_req", "path_no_sep", "path_wrong_crate", "path_prefix_of_crate", "path_crate_is_prefix", "wrong_types",
                 "missing_version"):
@@ -193,7 +206,8 @@ def run(tier, seed, replay=None):
         pass  # the whole table is cheap enough for the quick tier as well
     cases, meta = [], {}
     for i, c in enumerate(cs):
-        doc, settings = make_cell(c["cfg"], c["policy"], c["req"], c["rename"], c["params"], c["use"], c["malformed"])
+        doc, settings = make_cell(c["cfg"], c["policy"], c["req"], c["rename"], c["params"], c["use"], c["malformed"],
+                                  c.get("pathkind"))
         cid = "x%05d" % i
         cases.append({"id": cid, "settings": settings, "history": [{"op": "root", "schema": doc}],
                       "opts": {"code": False, "has_impl": False, "hooks": True}})
@@ -245,7 +259,7 @@ def run(tier, seed, replay=None):
             continue
         if want_sub:
             first = (RENAMES[c["rename"]] or CRATE).replace("-", "_") if c["cfg"] != "absent" else CRATE.replace("-", "_")
-            path = "::" + first + "::m::Target"
+            path = "::" + first + PATHS[c.get("pathkind")][len("ext_crate"):]
             exp_ident = path
             ps = PARAM_IDENTS[c["params"]]
             if ps:
@@ -261,7 +275,7 @@ def run(tier, seed, replay=None):
             if gen_names:
                 rep.violation("structure_generated", site, {"cell": c, "items": gen_names}, case=case, cell=c)
                 continue
-            if c["use"] == "def_eq" and "Target" in items:
+            if c["use"] == "def_eq" and PATHS[c.get("pathkind")].split("::")[-1] in items:
                 rep.violation("definition_item_present", site, {"cell": c}, case=case, cell=c)
                 continue
             if c["use"] == "def_diff" and wrapper is None:
